@@ -22,6 +22,27 @@ pub fn tlc_lines(path: &str, prefix: &str) -> Vec<Value> {
     res
 }
 
+/// Same lines, handed over in chunks so that millions of behaviours need not be held in memory.
+pub fn tlc_lines_chunked(path: &str, prefix: &str, chunk: usize, mut f: impl FnMut(Vec<Value>)) {
+    let file = File::open(path).unwrap_or_else(|e| panic!("cannot open {path}: {e}"));
+    let pre = format!("\"{prefix} ");
+    let mut res = Vec::with_capacity(chunk);
+    for line in BufReader::new(file).lines() {
+        let Ok(line) = line else { continue };
+        if !line.starts_with(&pre) {
+            continue;
+        }
+        let s: String = serde_json::from_str(&line).expect("TLC string");
+        res.push(serde_json::from_str(&s[prefix.len() + 1..]).expect("payload json"));
+        if res.len() == chunk {
+            f(std::mem::replace(&mut res, Vec::with_capacity(chunk)));
+        }
+    }
+    if !res.is_empty() {
+        f(res);
+    }
+}
+
 pub fn cps(v: &Value) -> String {
     match v {
         Value::Array(a) => a
